@@ -21,6 +21,7 @@ CONSTANTS Base, MaxD, MaxAtt, Window, CbThr, CbReset, Jit, Track, Bits, HCap,   
           Ids,           \* NodeIds (byte sequences) a regeneration may produce
           EvalReasons,   \* reasons of the evaluate_rejection STEPS (they write the private history)
           HistCaps, HistReasons, HistAges,   \* history mode: capacities of with_capacity, reasons and ages recorded
+          HistMaxTime,   \* history mode: the clock stops here (the trigger is idle in that mode)
           MaxTime, MaxOps
 
 MCIds == {<<171, 1>>, <<18, 2>>}     \* for the configurations: two identities with different 12-bit prefixes
@@ -38,7 +39,7 @@ Init == /\ mode \in {"trigger", "history"}
 
 DoT(r, op, a) == st' = r.s /\ last' = [op |-> op, r |-> a, t |-> now] /\ nops' = nops + 1 /\ UNCHANGED <<mode, h, now>>
 DoH(x, op, a, t) == h' = x /\ last' = [op |-> op, r |-> a, t |-> t] /\ nops' = nops + 1 /\ UNCHANGED <<mode, st, now>>
-Tick == now < MaxTime /\ now' = now + 1 /\ last' = [op |-> "tick", r |-> 0, t |-> now] /\ UNCHANGED <<mode, st, h, nops>>
+Tick == now < (IF mode = "history" THEN HistMaxTime ELSE MaxTime) /\ now' = now + 1 /\ last' = [op |-> "tick", r |-> 0, t |-> now] /\ UNCHANGED <<mode, st, h, nops>>
 BackoffChoices(c, f) == BackoffLo(c, f)..BackoffHi(c, f)
 
 Next ==
@@ -48,7 +49,7 @@ Next ==
         \/ \E id \in Ids : DoT(RecordResult(st, now, FALSE, id), "failure", 0)
         \/ \E id \in Ids : DoT(RecordResult(st, now, TRUE, id), "success", 0)
         \/ DoT(Disable(st), "disable", 0) \/ DoT(Enable(st), "enable", 0) \/ DoT(ResetOp(st), "reset", 0)
-        \/ \E r \in EvalReasons : DoT(EvalRejection(st, now, r, TRUE, FALSE, 0, now), "evalrej", r)
+        \/ \E r \in EvalReasons : DoT(EvalRejection(st, now, r, TRUE, FALSE, 0, 0), "evalrej", r)     \* wall-clock second: not modelled here
   \/ /\ nops < MaxOps /\ mode = "history"
      /\ \/ \E r \in HistReasons, a \in HistAges : now - a >= Epoch /\ DoH(HRecord(h, r, now - a), "hrecord", r, now - a)
         \/ DoH(HClear(h), "hclear", 0, 0)
@@ -56,7 +57,7 @@ Spec == Init /\ [][Next]_vars
 
 (* ---- every decision the trigger can give in the current state ---- *)
 RejInputs == [r : Reasons, rec : BOOLEAN, tgt : {TRUE}, retry : {SecUnit}]
-RejD(i) == EvalRejection(st, now, i.r, i.rec, i.tgt, i.retry, now).d
+RejD(i) == EvalRejection(st, now, i.r, i.rec, i.tgt, i.retry, 0).d
 FitD(v) == EvalFitness(st, now, v).d
 AllD == {RejD(i) : i \in RejInputs} \cup {FitD(v) : v \in Verdicts}
 InCooldown == st.la >= 0 /\ now - st.la < st.bo
@@ -68,33 +69,48 @@ TypeOK == /\ st.en \in BOOLEAN /\ st.fails \in Nat /\ st.bo \in Nat /\ st.la \in
           /\ \A i \in 1..Len(st.att) : st.att[i] \in 0..MaxTime
           /\ st.oa \in -1..MaxTime /\ (st.open <=> st.oa >= 0)
           /\ (st.la >= 0 => st.att # <<>> /\ st.la = st.att[Len(st.att)])
-          /\ \A d \in AllD : d.kind \in Kinds
+(* The rules about decisions are stated per decision d (for the rejection input i; fu = the decision for an unfit
+   verdict in the same state), so that the configuration of the intended design can check them with one pass over
+   the inputs (Decisions) and every deviation configuration can name the one it violates. *)
 (* regeneration is never recommended while disabled, in cooldown, above the attempt maximum, or while the
    circuit breaker reports itself open *)
-NoProceedWhenGated == \A d \in AllD : d.kind = "Proceed" => st.en /\ ~InCooldown /\ ~OverMax /\ ~IsCircuitOpen(st, now)
+PGated(d) == d.kind \in Kinds /\ (d.kind = "Proceed" => st.en /\ ~InCooldown /\ ~OverMax /\ ~IsCircuitOpen(st, now))
 (* a wait is a real wait: positive and not longer than the current backoff (or the retry-after of the rejection) *)
-WaitBounded == \A i \in RejInputs : LET d == RejD(i) IN
-                 d.kind = "Wait" => IF i.r \in DocTransient THEN d.rem = i.retry ELSE d.rem > 0 /\ d.rem <= st.bo
+PWait(i, d) == d.kind = "Wait" => IF i.r \in DocTransient THEN d.rem = i.retry ELSE d.rem > 0 /\ d.rem <= st.bo
 (* a reason the documentation calls permanent is answered Blocked in every state - never "wait and retry", never "proceed" *)
-PermanentNeverRetried == \A i \in RejInputs : i.r \in DocPermanent => RejD(i).kind = "Blocked" /\ RejD(i).why \in {"Blocklisted", "DiversityConstraint"}
+PPermanent(i, d) == i.r \in DocPermanent => d.kind = "Blocked" /\ d.why \in {"Blocklisted", "DiversityConstraint"}
 (* ... and a transient one (rate limiting) is never answered with a permanent block *)
-TransientNotBlocked == \A i \in RejInputs : i.r \in DocTransient => RejD(i).kind = "Wait"
-(* the three predicates on reasons agree with the documentation of the variants *)
+PTransient(i, d) == i.r \in DocTransient => d.kind = "Wait"
+(* the trigger proceeds on a rejection only if RejectionInfo::should_regenerate() says so *)
+PFollows(i, d) == d.kind = "Proceed" => ShouldRegenerate(i.r, i.rec) /\ d.urg = UrgencyOfReason(i.r) /\ d.tgt = i.tgt
+(* a rejection regeneration can help with and an unfit verdict pass the same gates *)
+PSame(i, d, fu) == MayHelp(i.r) /\ i.rec => d.kind = fu.kind /\ d.why = fu.why /\ d.rem = fu.rem /\ d.att = fu.att
+PFitness(fh, fm, fu, fc) ==
+  /\ fh.kind = "NotNeeded" /\ fm.kind = "Recommend" /\ fu.kind = fc.kind
+  /\ (fu.kind = "Proceed" => fu.urg = "Medium" /\ fc.urg = "Critical")
+  /\ \A f \in {fh, fm, fu, fc} : f.why \notin {"Blocklisted", "DiversityConstraint"} /\ PGated(f)
+
+NoProceedWhenGated == \A d \in AllD : PGated(d)
+WaitBounded == \A i \in RejInputs : PWait(i, RejD(i))
+PermanentNeverRetried == \A i \in RejInputs : PPermanent(i, RejD(i))
+TransientNotBlocked == \A i \in RejInputs : PTransient(i, RejD(i))
+ProceedFollowsRecommendation == \A i \in RejInputs : PFollows(i, RejD(i))
+SameGates == \A i \in RejInputs : PSame(i, RejD(i), FitD("unfit"))
+FitnessMapping == PFitness(FitD("healthy"), FitD("marginal"), FitD("unfit"), FitD("critical"))
+(* all of the above in one pass *)
+Decisions == LET g == Gates(st, now)
+                 fh == DecideFitness(st, g, "healthy")  fm == DecideFitness(st, g, "marginal")
+                 fu == DecideFitness(st, g, "unfit")    fc == DecideFitness(st, g, "critical")
+             IN /\ PFitness(fh, fm, fu, fc)
+                /\ \A i \in RejInputs : LET d == DecideRejection(st, g, i.r, i.rec, i.tgt, i.retry)
+                                        IN PGated(d) /\ PWait(i, d) /\ PPermanent(i, d) /\ PTransient(i, d) /\ PFollows(i, d) /\ PSame(i, d, fu)
+(* the three predicates on reasons agree with the documentation of the variants (for every reason, recorded or not) *)
 ReasonClasses == /\ \A r \in Reasons \cup HPresent(h) : (MayHelp(r) <=> r \in DocHelpful) /\ (IsBlocking(r) <=> r \in DocPermanent)
                  /\ \A r \in Reasons : IsDiversity(r) => IsBlocking(r) /\ ~MayHelp(r)
-                 /\ \A b \in 0..255 : FromByte(b) \in Reasons /\ (b \in Reasons => FromByte(b) = b)
-(* the trigger proceeds on a rejection only if RejectionInfo::should_regenerate() says so *)
-ProceedFollowsRecommendation == \A i \in RejInputs : RejD(i).kind = "Proceed" => ShouldRegenerate(i.r, i.rec)
-(* a rejection regeneration can help with and an unfit verdict pass the same gates; urgencies as documented *)
-SameGates == \A i \in RejInputs : (MayHelp(i.r) /\ i.rec) =>
-               LET d == RejD(i)  f == FitD("unfit") IN d.kind = f.kind /\ d.why = f.why /\ d.rem = f.rem /\ d.att = f.att
-FitnessMapping == /\ FitD("healthy").kind = "NotNeeded" /\ FitD("marginal").kind = "Recommend"
-                  /\ FitD("unfit").kind = FitD("critical").kind
-                  /\ (FitD("unfit").kind = "Proceed" => FitD("unfit").urg = "Medium" /\ FitD("critical").urg = "Critical")
-                  /\ \A v \in Verdicts : FitD(v).why \notin {"Blocklisted", "DiversityConstraint"}
+                 /\ (nops = 0 => \A b \in 0..255 : FromByte(b) \in Reasons /\ (b \in Reasons => FromByte(b) = b))
 (* backoff: within [base, max]; grows with the failures up to the cap; set by an attempt; reset by a success *)
 BackoffWithinCap == st.bo <= MaxOf(st.c.base, st.c.maxd) /\ (st.la >= 0 => st.bo >= st.c.base)
-BackoffMonotoneInFailures == \A f \in 0..(MaxOps + 1) : /\ Clamped(st.c, f) <= Clamped(st.c, f + 1) /\ Clamped(st.c, f) <= MaxOf(st.c.base, st.c.maxd)
+BackoffMonotoneInFailures == nops = 0 => \A f \in 0..(MaxOps + 1) : /\ Clamped(st.c, f) <= Clamped(st.c, f + 1) /\ Clamped(st.c, f) <= MaxOf(st.c.base, st.c.maxd)
                                                         /\ BackoffLo(st.c, f) <= BackoffLo(st.c, f + 1)
                                                         /\ (f > 0 /\ 2 * Clamped(st.c, f - 1) <= st.c.maxd => Clamped(st.c, f) = 2 * Clamped(st.c, f - 1))
 AttemptSetsBackoff == last.op = "attempt" => BackoffOk(st.c, st.fails, st.bo, 0) /\ st.la = now
@@ -107,7 +123,7 @@ PrefixTracking == /\ (last.op = "failure" /\ st.c.track => st.pref # {})
                   /\ \A p \in st.pref : \E id \in Ids : p = Prefix(id, st.c.bits)
                   /\ (~st.c.track => st.pref = {})
 (* evaluate_rejection leaves the rejection in the private history *)
-EvalRecords == last.op = "evalrej" /\ st.c.hcap > 0 => st.hist.items # <<>> /\ st.hist.items[Len(st.hist.items)] = <<last.r, last.t>>
+EvalRecords == last.op = "evalrej" /\ st.c.hcap > 0 => st.hist.items # <<>> /\ st.hist.items[Len(st.hist.items)] = <<last.r, 0>>
 (* rejection history: bounded; the newest rejection is kept; recent() is a sub-sequence that grows with the window;
    loop detection is monotone in the threshold; the most common reason is a most frequent one *)
 HBounded == Len(h.items) <= h.cap /\ Len(st.hist.items) <= st.hist.cap
@@ -133,7 +149,7 @@ CountersMonotone == [][/\ (Len(st'.att) >= Len(st.att) \/ last'.op = "reset")
                        /\ st.pref \subseteq st'.pref \/ last'.op = "reset"]_vars
 BackoffGrows == [][last'.op = "attempt" => st'.bo + 2 * JitterSpan(st.c, st.fails) >= st.bo]_vars
 (* the clock alone never turns a Proceed into anything else, nor opens the circuit *)
-TimeOnlyHelps == [][last'.op = "tick" => \A i \in RejInputs :
-                       EvalRejection(st, now, i.r, i.rec, i.tgt, i.retry, now).d.kind = "Proceed"
-                         => EvalRejection(st', now', i.r, i.rec, i.tgt, i.retry, now').d.kind = "Proceed"]_vars
+TimeOnlyHelps == [][last'.op = "tick" => LET g0 == Gates(st, now)  g1 == Gates(st', now') IN \A i \in RejInputs :
+                       DecideRejection(st, g0, i.r, i.rec, i.tgt, i.retry).kind = "Proceed"
+                         => DecideRejection(st', g1, i.r, i.rec, i.tgt, i.retry).kind = "Proceed"]_vars
 =============================================================================
